@@ -126,9 +126,9 @@ Variable sch : schema.
 Variable flt : option (nat * nat).
 
 (* ------------------------------------------------------------------------------------------------ index updates *)
-Lemma restoring_update_index : forall logged o e spec prev new, restoring (update_index flt logged o e spec prev new).
+Lemma restoring_update_index : forall o e spec prev new, restoring (update_index flt o e spec prev new).
 Proof.
-  intros logged o e spec prev new. unfold update_index.
+  intros o e spec prev new. unfold update_index.
   apply restoring_bind; [apply restoring_tick_idx | intros _].
   destruct ((has_none prev && has_none new) || key_eqb prev new); [apply restoring_ret|].
   apply restoring_bind_gets. intros c. set (s := c_st c).
@@ -139,7 +139,6 @@ Proof.
   - assert (Hnew : forall l x, In (l, x) (if has_none new then [] else [(LIdx e spec new, CObj (@None oid))]) -> norm l x = view s l).
     { intros l x Hin. destruct (has_none new); [contradiction|]. in_cases Hin. change (CObj (@None oid) = CObj (g_idx s e spec new)). now rewrite En. }
     destruct (has_none prev) eqn:Ep.
-    + destruct logged; [|apply restoring_unlogged].
       replace (if has_none new then [] else [UW (LIdx e spec new) (CObj None)])
         with (uw_list (if has_none new then [] else [(LIdx e spec new, CObj (@None oid))])) by (destruct (has_none new); reflexivity).
       apply post_block_uw; [exact Hnew|].
@@ -147,7 +146,6 @@ Proof.
     + destruct (g_idx s e spec prev) as [o3|] eqn:Eprev.
       * destruct (Nat.eqb o3 o) eqn:Eo.
         -- apply Nat.eqb_eq in Eo; subst o3.
-           destruct logged; [|apply restoring_unlogged].
            replace ((if has_none new then [] else [UW (LIdx e spec new) (CObj None)]) ++ [UW (LIdx e spec prev) (CObj (Some o))])
              with (uw_list ((if has_none new then [] else [(LIdx e spec new, CObj (@None oid))]) ++ [(LIdx e spec prev, CObj (Some o))]))
              by (destruct (has_none new); reflexivity).
@@ -193,6 +191,31 @@ Proof.
   - apply (post_block_uw c _ [(LStatus o, CStatus (g_status s o)); (LWbits o, CBits None); (LVal o a, CVal (g_val s o a))]).
     + intros l x Hin. in_cases Hin; cbn; fold s; try reflexivity. now rewrite Ew.
     + intros l x Hin. left. in_cases Hin; cbn; tauto.
+Qed.
+
+(* the status / _wbits_ / objects_to_save part of Entity.set and its undo_func *)
+Lemma restoring_set_touch : forall o mask b, restoring (set_touch o mask b).
+Proof.
+  intros o mask b. unfold set_touch. apply restoring_bind_gets. intros c. set (s := c_st c).
+  destruct (g_wbits s o) as [w|] eqn:Ew; [destruct b|].
+  - destruct (status_eqb (g_status s o) SModified) eqn:Em.
+    + apply (post_block_uw c _ [(LStatus o, CStatus (g_status s o)); (LWbits o, CBits (Some w))]).
+      * intros l x Hin. in_cases Hin; cbn; fold s; try reflexivity. now rewrite Ew.
+      * intros l x Hin. left. in_cases Hin; cbn; tauto.
+    + destruct (g_status s o) eqn:Est; try apply restoring_taint_fail;
+        (destruct (g_savepos s o) eqn:Esp; [apply restoring_taint_fail|]).
+      all: match goal with |- context [UW (LStatus _) (CStatus ?st)] =>
+             apply (post_block_uw_pop c _ [(LStatus o, CStatus st); (LWbits o, CBits (Some w))]
+                      [(LSavePos o, CPos None)] o (g_queue s)) end.
+      all: try (rewrite !view_apply_writes; cbn; rewrite ?Nat.eqb_refl; cbn; reflexivity).
+      all: try (intros l x Hin; in_cases Hin; cbn; fold s; rewrite ?Est, ?Ew, ?Esp; reflexivity).
+      all: intros l x Hin; left; in_cases Hin; cbn; tauto.
+  - apply (post_block_uw c _ [(LStatus o, CStatus (g_status s o)); (LWbits o, CBits (Some w))]).
+    + intros l x Hin. in_cases Hin; cbn; fold s; try reflexivity. now rewrite Ew.
+    + intros l x Hin. contradiction.
+  - apply (post_block_uw c _ [(LStatus o, CStatus (g_status s o)); (LWbits o, CBits None)]).
+    + intros l x Hin. in_cases Hin; cbn; fold s; try reflexivity. now rewrite Ew.
+    + intros l x Hin. contradiction.
 Qed.
 
 (* ------------------------------------------------------------------------------------------------ reverse_add / reverse_remove *)
@@ -307,12 +330,12 @@ Proof.
     | intros _; destruct new; try apply restoring_ret; apply restoring_attr_set_rev ].
 Qed.
 
-Lemma restoring_set_tail_rev : forall o e a newl to_add to_remove, restoring (set_tail false o e a newl to_add to_remove).
+Lemma restoring_set_tail_rev : forall m o e a newl to_add to_remove, restoring (set_tail false m o e a newl to_add to_remove).
 Proof.
   intros. unfold set_tail. apply restoring_bind; [apply restoring_gets | intros s]. apply restoring_unlogged.
 Qed.
 
-Lemma restoring_err_set_tail : forall d o e a newl to_add to_remove, restoring_err (set_tail d o e a newl to_add to_remove).
+Lemma restoring_err_set_tail : forall d m o e a newl to_add to_remove, restoring_err (set_tail d m o e a newl to_add to_remove).
 Proof.
   intros. destruct d; [|apply restoring_err_of, restoring_set_tail_rev].
   unfold set_tail. intros c. cbn. exact I.
@@ -693,10 +716,9 @@ Proof.
   apply restoring_err_bind; [apply restoring_gets | intros s].
   apply restoring_err_bind; [apply restoring_guard | intros _].
   destruct (is_empty _); [apply restoring_err_of, restoring_ret|].
-  apply restoring_err_bind.
-  - destruct (a_kind _); try apply restoring_reverse_remove;
-      (destruct (a_cascade _); apply restoring_iterM; intros; [apply restoring_del_top | apply restoring_attr_set_rev]).
-  - intros _. apply restoring_err_get_writes.
+  destruct (a_kind _);
+    try (apply restoring_err_bind; [apply restoring_reverse_remove | intros _; apply restoring_err_get_writes]);
+    apply restoring_err_of; (destruct (a_cascade _); apply restoring_iterM; intros; [apply restoring_del_top | apply restoring_attr_set_rev]).
 Qed.
 
 Lemma restoring_err_op_setmany : forall o kw, restoring_err (op_setmany sch flt o kw).
@@ -705,12 +727,9 @@ Proof.
   apply restoring_err_bind; [apply restoring_gets | intros s].
   apply restoring_err_bind; [apply restoring_guard | intros _].
   apply restoring_err_bind; [apply restoring_validate_kw | intros r].
-  destruct (is_empty (fst r) && is_empty (snd r)); [apply restoring_err_of, restoring_ret|].
-  apply restoring_err_bind.
-  { destruct (is_empty (fst r)); [apply restoring_ret|].
-    destruct (bits_writes _ _ _ _); [apply restoring_unlogged | apply restoring_taint_fail]. }
-  intros _.
-  destruct (is_empty (snd r) && negb _); [apply restoring_err_writes|].
+  destruct (negb (is_empty (fst r)) && is_empty (snd r) && negb _).
+  { destruct (bits_writes _ _ _ _); [apply restoring_err_writes | apply restoring_err_of, restoring_taint_fail]. }
+  apply restoring_err_bind; [apply restoring_set_touch | intros _].
   apply restoring_err_bind.
   { apply restoring_iterM. intros a. destruct (lookup a _); [apply restoring_update_index | apply restoring_ret]. }
   intros _. apply restoring_err_bind.
@@ -753,9 +772,6 @@ Proof.
   - intros c. exact I.
 Qed.
 
-Lemma rev_short : forall A (l : list A), Nat.ltb 1 (length l) = false -> rev l = l.
-Proof. intros A [|a [|b l]] H; cbn in *; try reflexivity. discriminate. Qed.
-
 (* A failing top-level call that did not pass through a forgetful code site leaves every location of the session as it was. *)
 Theorem step_atomic : forall s o,
   o_err (step sch flt s o) <> None -> o_taints (step sch flt s o) = [] ->
@@ -766,13 +782,10 @@ Proof.
   destruct (body sch flt o (mkctx s [] [] 0 0)) as [[] c|e c] eqn:Eb; cbn [o_err]; [intros Hn; contradiction|].
   cbn in H. destruct H as [new [Hl Hp]]. cbn in Hl, Hp. rewrite app_nil_r in Hl.
   intros _.
-  destruct (replay (if is_setmany o then rev (c_log c) else c_log c) (c_st c)) as [s' ok] eqn:Er. cbn [o_taints o_state].
-  intros Ht. apply app_eq_nil in Ht as [Hf Htc].
+  destruct (replay (c_log c) (c_st c)) as [s' ok] eqn:Er. cbn [o_taints o_state].
+  intros Htc.
   destruct (Hp Htc) as [_ [s0 [Hr Hv]]].
-  assert (Hlog : (if is_setmany o then rev (c_log c) else c_log c) = new).
-  { destruct (is_setmany o); [|exact Hl]. rewrite <- Hl. apply rev_short.
-    destruct (Nat.ltb 1 (length (c_log c))); [discriminate Hf | reflexivity]. }
-  rewrite Hlog, Hr in Er. injection Er as <- <-. exact Hv.
+  rewrite Hl, Hr in Er. injection Er as <- <-. exact Hv.
 Qed.
 
 End Proofs.
@@ -804,7 +817,7 @@ Proof.
 Qed.
 
 (* the taints are exactly the nine named code sites *)
-Definition all_sites : list taint := [TSetBits; TSetIdx; TSetForward; TSetReverse; TRemFlag; TDelNested; TNewPk; TDelCreated; TInconsistent].
+Definition all_sites : list taint := [TSetReverse; TRemFlag; TDelNested; TNewPk; TDelCreated; TInconsistent].
 Lemma sites_complete : forall sch flt s o, known_bad sch flt s o = true ->
   exists t, In t (o_taints (step sch flt s o)) /\ In t all_sites.
 Proof.
